@@ -156,8 +156,7 @@ class Matcher:
             return
         if exp.kind == "forced":
             # the expectation text only matters for the error message: compare the literal too
-            if exp.arg is not None and act.arg is not None and ast.literal_eval(exp.arg) != ast.literal_eval(repr(act.arg)) \
-                    and repr(ast.literal_eval(exp.arg)) != act.arg:
+            if exp.arg is not None and act.arg is not None and exp.arg != act.arg:
                 out.append(f"{ctx}: forced expectation text {act.arg!r} != {exp.arg!r}")
         elif exp.arg != act.arg:
             out.append(f"{ctx}: expected {exp}, found {act}")
